@@ -104,6 +104,7 @@ def check(run, prog):
         ("np.modf(w32)", uf("modf", 1, 2), [w32], {}, w32),
     ]
     dask_out_rule(ck, prog, "R2")
+    scaled_dimensionless_rule(ck, prog, "R2")
     for label, ufunc, inputs, kw, selfv in plans:
         ev = ck.evaluator()
         unwrap = lambda v: v.attrs["_data"] if isinstance(v, ObjV) else v  # noqa: E731
@@ -194,6 +195,32 @@ def check(run, prog):
 
 
 
+def scaled_dimensionless_rule(ck, prog, rule):
+    """An operand like 50*u.percent or 0.001*u.kHz/u.Hz is a NUMBER with a scale: with or without out=, on either back end, what
+    reaches the arithmetic is its physical value (0.5, 1), never the bare number in front of the unit."""
+    fi = prog.func("Signal.__array_ufunc__")
+    half = sp.Rational(1, 2)
+    for backend in ("numpy", "dask"):
+        for label, kwf in (("np.add(z, 50*u.percent)", lambda z: {}), ("z += 50*u.percent  [np.add(z, q, out=(z,))]", lambda z: {"out": TupleV([z])})):
+            z = make_signal(prog, "IntensitySignal", nchan=2, dtype="float64", backend=backend)
+            q = Num(half, kind="quantity", unit=sp.Rational(1, 100))
+            ev = ck.evaluator()
+            tag = f"{label} [{backend}]"
+            try:
+                ev.call(fi, [uf("add", 2, 1), StrV("__call__"), z, q], kwf(z), self_val=z)
+            except Raised as e:
+                ck.same(rule, fi.where, tag, "a dimensionless operand is accepted", False, found=str(e)[:120], nontrivial=True)
+                continue
+            except Unsupported as e:
+                ck.unk(rule, fi.where, tag, "evaluates", str(e)[:200])
+                continue
+            calls = [t for t in ev.trace if t[0] == "ufunc-call" and t[1] == "add"]
+            ops = [a for t in calls for a in t[2][1:2] if isinstance(a, Num)]
+            ok = bool(ops) and all(sp.simplify(o.expr - half) == 0 for o in ops)
+            ck.same(rule, fi.where, tag, "the operand enters the arithmetic with its physical value 1/2 (not the 50 in front of the percent sign)", ok,
+                    found=str([str(o.expr) for o in ops]) or "no add at all", nontrivial=True)
+
+
 def dask_out_rule(ck, prog, rule):
     """Dask-backed signals as out= targets: Dask "fills" an out= array by re-pointing it at the result (dtype included), and its
     multi-output ufuncs take no out= at all; the signal named as target must nevertheless end up as NumPy would leave it
@@ -248,6 +275,7 @@ def dask_out_rule(ck, prog, rule):
     au = Num(sp.Symbol("AU"), kind="array", shape=(N, 2), tag="data", backend="numpy", dtype=ExtV("numpy.uint64"))
     mask = Num(sp.Symbol("MASK"), kind="array", shape=(N, 2), tag="data", backend="numpy", dtype=ExtV("numpy.bool_"))
     ev = ck.evaluator()
+    d_si = si.attrs["_data"]
     label = "np.add(su, AU, out=(si,), where=MASK) on Dask data: uint64 result into an int64 target"
     try:
         ev.call(fi, [uf("add", 2, 1), StrV("__call__"), su, au], {"out": TupleV([si]), "where": mask}, self_val=su)
@@ -256,6 +284,11 @@ def dask_out_rule(ck, prog, rule):
         okw = bool(blended) and all(isinstance(t[2].dtype, ExtV) and t[2].dtype.dotted == "numpy.int64" for t in blended)
         ck.same(rule, fi.where, label, "the result is cast to the target's dtype before it is blended with the target's old contents", okw,
                 found=str([repr(getattr(t[2], "dtype", None)) for t in wc]) or "no blend at all", nontrivial=True)
+        # ... and the elements the mask leaves out keep the TARGET's old contents (not those of the first operand)
+        kept = [t[3] for t in wc if len(t) > 3 and isinstance(t[3], Num)]
+        okk = bool(kept) and all(k_.expr == d_si.expr for k_ in kept)
+        ck.same(rule, fi.where, label + ": unselected elements", "where the mask is False the target keeps its own old contents", okk,
+                found=str([str(k_.expr)[:40] for k_ in kept]) or "no blend at all", expected=str(d_si.expr), nontrivial=True)
     except Raised as e:
         ck.same(rule, fi.where, label, "same_kind casting allows uint64 into int64: carried out", False, found=str(e)[:120], nontrivial=True)
     except Unsupported as e:
@@ -340,6 +373,15 @@ def array_copy_protocol(ck, prog, rule, z=None):
                         found="the signal's own data object" if r is z.attrs["_data"] else repr(r)[:80], nontrivial=True)
             else:
                 ck.same(rule, fa.where, lab, "yields the signal's data", r.expr == dz.expr, found=repr(r)[:80])
+    # np.array(z, dtype=z.dtype) / np.array(z, dtype=complex, copy=True): a dtype that needs no conversion does not cancel the copy request
+    z2 = make_signal(prog, "BasebandSignal", nchan=2, dtype="complex128")
+    d2 = z2.attrs["_data"]
+    ev = ck.evaluator()
+    lab = "z.__array__(dtype=<z's own dtype>, copy=True)"
+    r = ck.attempt(rule, fa.where, lab, "evaluates", lambda: ev.call(fa, [], {"dtype": ExtV("numpy.complex128"), "copy": BoolV(True)}, self_val=z2), ev=ev)
+    if r is not None and isinstance(r, Num):
+        ck.same(rule, fa.where, lab, "returns a new array, never the signal's own buffer (the copy flag is honoured whatever dtype is asked for)",
+                r is not d2 and r.expr == d2.expr, found="the signal's own data object" if r is d2 else repr(r)[:80], nontrivial=True)
 
 def _same_val(a, b):
     if a is b:
